@@ -6,8 +6,18 @@ from .facts import callee, strip, walk, plain_local
 from .symx import single_atom, atom_fn, atom_args, SymEval, Unsupported, Poly, app, var, num, vkey
 
 
+_SEQ = [0]
+
+
+def next_seq():
+    """global order stamp shared by traced events and audited sites (one timeline per process)"""
+    _SEQ[0] += 1
+    return _SEQ[0]
+
+
 class Event:
     def __init__(self, callee, args, loops, guards, site, node, env=None):
+        self.seq = next_seq()
         self.env = env
         self.callee = callee
         self.args = args
@@ -276,7 +286,20 @@ class Tracer(SymEval):
     def e_while(self, n, env):
         e2 = dict(env)
         self._forget_assigned(n["body"], e2, "@loop")
-        c = self.eval(n["c"], e2)
+        # the condition is evaluated once per iteration: calls inside it (e.g. `while .. && let Ok(x) = rx.recv()`) belong to the loop
+        self.loops.append(("while", None))
+        try:
+            c = self.eval(n["c"], e2)
+        finally:
+            self.loops.pop()
+        for ev_ in self.events:
+            for i_, l_ in enumerate(ev_.loops):
+                if l_ == ("while", None):
+                    ev_.loops[i_] = ("while", c)
+        for st_ in getattr(self, "sites", []):
+            for i_, l_ in enumerate(st_["loops"]):
+                if l_ == ("while", None):
+                    st_["loops"][i_] = ("while", c)
         self.loops.append(("while", c))
         self.guards.append((c, True))
         try:
@@ -476,6 +499,12 @@ class Tracer(SymEval):
             arms.append((repr(pat_key(a["pat"])), v))
         from .symx import build_match
         return build_match(s, arms, guarded=any("guard" in a for a in n["arms"]))
+
+    def e_try(self, n, env):
+        v = super().e_try(n, env)
+        # `?` is a possible early exit: recorded so that rules can ask what may be skipped by it
+        self.events.append(Event("<try>", [v], self.loops, self.guards, n.get("sp"), n))
+        return v
 
     def e_ret(self, n, env):
         v = self.eval(n["e"], env) if "e" in n else ("tuple", [])
